@@ -520,9 +520,9 @@ def build_listeners(specs, sta):
     return out
 
 
-def gen_step(rng, P):
-    """sampling step in seconds: between 1/200 and 1/25 of a period"""
-    return round(rng.uniform(P / 200, P / 25), rng.choice([0, 3, 6]))
+def gen_step(rng, P, big=True):
+    """sampling step in seconds: between 1/200 (quick tier: 1/90) and 1/25 of a period"""
+    return round(rng.uniform(P / (200 if big else 90), P / 25), rng.choice([0, 3, 6]))
 
 
 def gen_spec(rng, mode, kind, big=True):
@@ -531,24 +531,24 @@ def gen_spec(rng, mode, kind, big=True):
     sp = {"mode": mode, "orbit": o}
     if mode == "analytical":
         sp["listeners"], sp["station"] = gen_listeners(rng, o)
-        sp["start_s"], sp["span_s"], sp["step_s"] = rng.uniform(-0.5, 0.5) * P, P * rng.uniform(1.0, 1.6), gen_step(rng, P)
+        sp["start_s"], sp["span_s"], sp["step_s"] = rng.uniform(-0.5, 0.5) * P, P * rng.uniform(1.0, 1.6), gen_step(rng, P, big)
     elif mode == "backward":
         sp["listeners"], sp["station"] = gen_listeners(rng, o, with_station=kind == "leo")
-        sp["start_s"], sp["span_s"], sp["step_s"] = 0.0, -P * (2.5 if kind == "leo" else 1.3), -gen_step(rng, P)
+        sp["start_s"], sp["span_s"], sp["step_s"] = 0.0, -P * (2.5 if kind == "leo" else 1.3), -gen_step(rng, P, big)
     elif mode == "ephem":
         sp["listeners"], sp["station"] = gen_listeners(rng, o)
-        sp["estep_s"] = P / rng.uniform(60, 120)
+        sp["estep_s"] = P / (rng.uniform(60, 120) if big else rng.uniform(45, 75))
         sp["emode"] = ["nostep", "step", "dates"][_ephem_counter[0] % 3]    # (cycled: every tier sees the stored-points form first)
         _ephem_counter[0] += 1
-        sp["start_s"], sp["span_s"], sp["step_s"] = 8 * sp["estep_s"], 1.5 * P - 16 * sp["estep_s"], gen_step(rng, P)
+        sp["start_s"], sp["span_s"], sp["step_s"] = 8 * sp["estep_s"], 1.5 * P - 16 * sp["estep_s"], gen_step(rng, P, big)
     elif mode == "numerical":
         sp["listeners"], sp["station"] = gen_listeners(rng, o, with_station=False)
         sp["nstep_s"] = P / 150
-        sp["start_s"], sp["span_s"], sp["step_s"] = 0.0, 1.2 * P, gen_step(rng, P)
+        sp["start_s"], sp["span_s"], sp["step_s"] = 0.0, 1.2 * P, gen_step(rng, P, big)
     elif mode == "visibility":
         sp["listeners"], sp["station"] = [], gen_station(rng, o["kep"][2], mask=rng.random() < 0.5)
-        # (quick tier: 1.5 to 2.5 revolutions, otherwise 2 to 4 — sample size only, same checks)
-        sp["start_s"], sp["span_s"], sp["step_s"] = 0.0, P * (rng.uniform(2, 4) if big else rng.uniform(1.5, 2.5)), round(rng.uniform(30, 120), 3)
+        # (quick tier: 1.2 to 1.8 revolutions at 60-120 s, otherwise 2 to 4 at 30-120 s — sample size only, same checks)
+        sp["start_s"], sp["span_s"], sp["step_s"] = 0.0, P * (rng.uniform(2, 4) if big else rng.uniform(1.2, 1.8)), round(rng.uniform(30, 120) if big else rng.uniform(60, 120), 3)
     elif mode == "geosync":
         # inclined (eccentric) geosynchronous orbit seen from a station inside its ground-track loop: always in view,
         # the elevation has maxima AND minima while in view
@@ -558,7 +558,7 @@ def gen_spec(rng, mode, kind, big=True):
         sp["station"] = {"under_track": [rng.uniform(-12, 12), rng.uniform(-12, 12)], "latlonalt": None, "mask": None}
         sp["listeners"] = [["signal"], ["max"], ["radvel", True]]
         rng.shuffle(sp["listeners"])
-        sp["start_s"], sp["span_s"], sp["step_s"] = 0.0, P * rng.uniform(1.1, 2.2), round(rng.uniform(300, 900), 3)
+        sp["start_s"], sp["span_s"], sp["step_s"] = 0.0, P * (rng.uniform(1.1, 2.2) if big else rng.uniform(1.1, 1.5)), round(rng.uniform(300, 900) if big else rng.uniform(600, 900), 3)
     elif mode == "anomaly-large-step":
         # sampling steps between 1.2 and 1.9 rad of anomaly: still < 2 rad, so every genuine crossing is seen by the guard
         step = round(P * rng.uniform(1.2, 1.9) / (2 * math.pi), 3)
@@ -875,7 +875,7 @@ def oracle(ctx, widened):
     kinds = ["leo", "molniya", "meo", "gto", "leo"]
     plan = [("simultaneous", 8 if big else 1, None), ("steep-mask", 8 if big else 1, None), ("shadow-frames", 8 if big else 1, None), ("anomaly-large-step", 20 if big else 2, None),
             ("backward", 20 if big else 2, 0), ("geosync", 15 if big else 2, None), ("numerical", 15 if big else 1, 0),
-            ("ephem", 30 if big else 2, 1), ("analytical", 60 if big else 3, 0), ("visibility", 20 if big else 2, None)]
+            ("ephem", 30 if big else 2, 1), ("analytical", 60 if big else 2, 0), ("visibility", 20 if big else 1, None)]
     hinted = None
     if hunt and any("visibility" in b for b in ctx.broken):
         hinted = "visibility"
